@@ -56,7 +56,7 @@ def run(ctx):
         prog = m.split("(")[1].split(")")[0] if "(" in m else "?"
         what = m.split("): ")[1].split(" ")[0:3] if "): " in m else ["?"]
         # the key names the kind of program and of difference, not the address it showed on
-        what = [w for w in what if not re.fullmatch(r"(0x)?[0-9a-fA-F]{6,}", w)]
+        what = [w for w in what if not re.fullmatch(r"(0x)?[0-9a-fA-F]{6,}", w) and not re.fullmatch(r"[0-9,.:]+", w)]
         key = "reference-evm-differs:%s:%s" % (prog.split(" ")[0], "-".join(what))
         if key in seen:
             continue
